@@ -1013,6 +1013,8 @@ def _expand_when_stmt_element(
         if element.else_elements is None:
             new_elements.append(Abort())
         else:
+            # The scope of the when statement also needs to be closed on the else path
+            new_elements.append(EndScope(name=scope_label_name))
             new_elements.append(Goto(label=else_statement_label_name))
 
             new_elements.append(Label(name=else_statement_label_name))
